@@ -204,7 +204,18 @@ def c15_template(args):
         if r.returncode != 0:
             res["harness"].append("untraced cycle 2 failed with exit %d" % r.returncode)
             return finish(res, W)
-        names = sorted(set(os.listdir(DS0)) | set(os.listdir(DS)))
+        names = set(os.listdir(DS0)) | set(os.listdir(DS))
+        # plus every file name inside the datastore that the cycle touches and that is the same in
+        # two unfiltered dry runs (fixed temporary names such as "x.json.tmp"; random ones differ)
+        seen = []
+        for k in range(2):
+            shutil.rmtree(DS, ignore_errors=True)
+            shutil.copytree(DS0, DS)
+            log = os.path.join(W, "names%d.log" % k)
+            sh(["strace", "-f", "-y", "-qq", "-e", "trace=" + TRACE_SET, "-o", log] + client_cmd(R2, DS, shipped))
+            seen.append({os.path.basename(e["ds"]) for e in parse_trace(log, DS) if e["ds"]})
+        names |= (seen[0] & seen[1])
+        names = sorted(names)
         after = followups(DS, "complete")
         for key, st in after:
             res["violations"].append({"key": key + ":no-fault", "template": tmpl, "template_index": ti, "tier": tier, "fault": None, "state": {k: list(v) for k, v in st.items()}})
@@ -276,7 +287,9 @@ def c15_template(args):
                 except OSError:
                     pass
                 r = sh(client_cmd(R2, DS, shipped))
-                log = "INJECTED" if r.returncode != 0 else ""
+                # the disk was full whatever the client reports (a client that swallows the write
+                # error exits 0): always judge the resulting datastore
+                log = "INJECTED"
                 try:
                     os.unlink(os.path.join(DS, ".filler"))
                 except OSError:
